@@ -455,7 +455,7 @@ func (r *runner) check(j job, out genharness.Outcome) {
 			core.Guard(func() { alt = extsem.Events(cs.tree, in, false) })
 			if sameEvents(alt, got) {
 				c.Violate("fixWhitespace-ignored:grammar-without-rule-actions",
-					fmt.Sprintf("fixWhitespace = true has no effect: no rule has an in-rule report or code, so applyRule is generated without its `switch rule` and fixTrailingWS is never called. input %q: expected %s, got %s (= the ranges without the option)\n%s", cs.text, eventsText(exp), strings.Join(rc.Got, " "), rules), rc)
+					fmt.Sprintf("fixWhitespace = true has no effect on this grammar: the generated applyRule never calls fixTrailingWS (no rule is trimmed; historically: no `switch rule` at all when no rule has an in-rule report or code) although a reported rule ends in an empty symbol. input %q: expected %s, got %s (= the ranges without the option)\n%s", cs.text, eventsText(exp), strings.Join(rc.Got, " "), rules), rc)
 				continue
 			}
 		}
